@@ -746,9 +746,47 @@ func c07strace(run *vkit.Run, base string) {
 	muts, marks := 0, 0
 	concurrentPairs := 0
 	phase := ""
+	pendingOpen := map[string]string{} // pid -> path of an openat whose result comes in a "resumed" line
+	pendingCreate := map[string]bool{}
 	for _, line := range strings.Split(string(data), "\n") {
+		pid := ""
 		if i := strings.Index(line, " "); i > 0 {
+			pid = line[:i]
 			line = strings.TrimSpace(line[i+1:]) // strip pid
+		}
+		if strings.HasPrefix(line, "<... openat resumed>") || strings.HasPrefix(line, "<... open resumed>") {
+			if p, ok := pendingOpen[pid]; ok {
+				delete(pendingOpen, pid)
+				if k := strings.LastIndex(line, "= "); k > 0 {
+					fd := strings.Fields(line[k+2:])[0]
+					if !strings.HasPrefix(fd, "-") {
+						fdPath[fd] = p
+						if pendingCreate[pid] && started {
+							muts++
+							desc := "create " + strings.TrimPrefix(p, dir)
+							if lastMut != "" && markersSince == 0 {
+								a, b := lastMut, desc
+								conc := (strings.HasSuffix(a, ".q4") && strings.HasSuffix(b, ".ods")) || (strings.HasSuffix(a, ".ods") && strings.HasSuffix(b, ".q4"))
+								if conc && (phase == "put-odsq4" || phase == "putq4-again") {
+									concurrentPairs++
+								} else {
+									gaps = append(gaps, fmt.Sprintf("[%s] %s  →  %s", phase, lastMut, desc))
+								}
+							}
+							lastMut, markersSince = desc, 0
+						}
+					}
+				}
+				delete(pendingCreate, pid)
+			}
+			continue
+		}
+		if (strings.HasPrefix(line, "openat(") || strings.HasPrefix(line, "open(")) && strings.Contains(line, "<unfinished") && strings.Contains(line, dir) {
+			p := line[strings.Index(line, "\"")+1:]
+			p = p[:strings.Index(p, "\"")]
+			pendingOpen[pid] = p
+			pendingCreate[pid] = strings.Contains(line, "O_CREAT")
+			continue
 		}
 		if strings.Contains(line, "/verif-marker/") {
 			name := line[strings.Index(line, "/verif-marker/")+len("/verif-marker/"):]
